@@ -46,7 +46,7 @@ Section FieldSupa.
             let j := find_alt (tl cfs) 1 key in
             negb (Nat.eqb j 0) &&
             match nth_error cfs j with
-            | Some a => rec (f_ty a) (f_params a) ov
+            | Some a => rec (f_ty a) (f_params a) ov && ne (f_ty a) (f_params a)
             | None => false
             end
         | None => false
